@@ -705,7 +705,7 @@ Lemma never_overwritten_listed fx m f files b ts ks :
   mgr_get m b = Some ks -> create_backup fx m f files b ts = (f, m, Ok false).
 Proof. intro H. unfold create_backup. rewrite H. reflexivity. Qed.
 
-(* the repaired code: whatever the manager's dictionary says, a name that exists on
+(* the current code (after fix commit fb42f68): whatever the manager's dictionary says, a name that exists on
    disk (as a directory, a file, a half-made backup) is refused without any effect *)
 Lemma never_overwritten_lemma m f files b ts :
   exists_ f (backup_dir b) = true -> create_backup true m f files b ts = (f, m, Ok false).
@@ -771,7 +771,7 @@ Lemma crash_cons_S e r f f1 i k :
 Proof. intro H. simpl. rewrite H. reflexivity. Qed.
 
 (* After ANY crash of create_backup, a later create_backup of the same name by ANY
-   manager object (the repaired code) either finds the untouched initial state
+   manager object (current code, after fix commit fb42f68) either finds the untouched initial state
    (nothing had happened yet) or refuses without any effect: a half-made
    backups/<name> is never completed, overwritten or made valid behind the
    constructor's back. *)
@@ -1298,7 +1298,7 @@ Proof.
   vm_compute. discriminate.
 Qed.
 
-(* the repaired code refuses on the very witness of the defect *)
+(* the current code (after fix commit fb42f68) refuses on the very witness of the repaired defect *)
 Lemma ex_fixed_refuses :
   create_backup true [] ex_f2 ex_files ex_b ex_ts = (ex_f2, [], Ok false).
 Proof. vm_compute. reflexivity. Qed.
@@ -1387,7 +1387,7 @@ Lemma backup_dir_alias b b' : key_path b' = key_path b -> backup_dir b' = backup
 Proof. intro H. unfold backup_dir, name_path. rewrite H. reflexivity. Qed.
 
 (* any spelling b' that resolves to the directory of a backup a fresh manager lists is
-   refused by the repaired code, whatever the calling manager has cached *)
+   refused by the current code (after fix commit fb42f68), whatever the calling manager has cached *)
 Lemma never_overwritten_alias m f files b b' ts mdisk rec :
   key_path b' = key_path b ->
   get_backups f = Ok mdisk -> mgr_get mdisk b = Some rec ->
@@ -1416,7 +1416,7 @@ Proof.
 Qed.
 
 (* the seeded class: "b1/" on the witness tree, refused; a guard that compares the raw name
-   with the directory entries would let it through (the pre-fix program does) *)
+   with the directory entries would let it through (the program before fix commit fb42f68 does) *)
 Definition ex_b_slash : name := ex_b ++ [ch_slash].
 Lemma ex_alias_refused :
   create_backup true [] ex_f2 ex_files ex_b_slash ex_ts = (ex_f2, [], Ok false) /\
@@ -1551,4 +1551,307 @@ Proof.
   - repeat constructor; simpl; intuition discriminate.
   - vm_compute. reflexivity.
   - vm_compute. reflexivity.
+Qed.
+
+(* ------------------------------------------------------------------ *)
+(* The task filter looks at the base name only                         *)
+(* ------------------------------------------------------------------ *)
+Lemma last_app_nonempty {A} (p l : list A) d : l <> [] -> last (p ++ l) d = last l d.
+Proof.
+  intro Hne. induction p as [|x p IH]; [reflexivity|].
+  simpl. destruct (p ++ l) eqn:E; [|exact IH].
+  apply app_eq_nil in E as [_ E]. contradiction.
+Qed.
+
+Lemma get_task_basename tasks (p q : path) :
+  @last name p [] = @last name q [] -> get_task tasks p = get_task tasks q.
+Proof.
+  intro H. induction tasks as [|t r IH]; [reflexivity|]. cbn [get_task]. rewrite H, IH. reflexivity.
+Qed.
+
+Lemma task_filter_basename_only b b' tasks k :
+  key_path k <> [] ->
+  task_selected tasks (backup_root b ++ key_path k) = task_selected tasks [last (key_path k) []] /\
+  task_selected tasks (backup_root b ++ key_path k) = task_selected tasks (backup_root b' ++ key_path k).
+Proof.
+  intro Hne. unfold task_selected. split.
+  - rewrite (get_task_basename tasks (backup_root b ++ key_path k) [last (key_path k) []]); [reflexivity|].
+    rewrite last_app_nonempty by exact Hne. reflexivity.
+  - rewrite (get_task_basename tasks (backup_root b ++ key_path k) (backup_root b' ++ key_path k)); [reflexivity|].
+    rewrite !last_app_nonempty by exact Hne. reflexivity.
+Qed.
+
+(* ------------------------------------------------------------------ *)
+(* When a restore completes                                            *)
+(* ------------------------------------------------------------------ *)
+Definition anc_ok (cur : fs) (files : list path) : Prop :=
+  forall f j c, In f files -> j < length f -> lookup cur (firstn j f) <> Some (File c).
+Definition notdir_ok (cur : fs) (files : list path) : Prop :=
+  forall f, In f files -> lookup cur f <> Some Dir.
+Definition no_nest (files : list path) : Prop :=
+  forall f g j, In f files -> In g files -> j < length g -> f <> firstn j g.
+Definition rok (files : list path) (b : name) (e : effect) : Prop :=
+  match e with
+  | Mkdir p => exists g j, In g files /\ j < length g /\ p = firstn j g
+  | Copy s d => In d files /\ s = backup_root b ++ d
+  | Write _ _ => False
+  end.
+
+Lemma exec_restorable files b : forall es cur,
+  Forall (rok files b) es -> no_nest files ->
+  (forall f, In f files -> under (backup_dir b) f = false) ->
+  anc_ok cur files -> notdir_ok cur files ->
+  (forall f, In f files -> exists c, lookup cur (backup_root b ++ f) = Some (File c)) ->
+  exists cur', exec cur es = (cur', Ok tt).
+Proof.
+  induction es as [|e es IH]; intros cur Hok Hnn Hout Ha Hd Hb; [eexists; reflexivity|].
+  inversion Hok as [|? ? He Hes]; subst.
+  destruct e as [p|s d|p c]; cbn [rok] in He.
+  - destruct He as (g & j & Hg & Hj & ->). cbn [exec apply].
+    destruct (lookup cur (firstn j g)) as [[|c]|] eqn:E.
+    + apply IH; assumption.
+    + exfalso. apply (Ha g j c Hg Hj). exact E.
+    + apply IH; try assumption.
+      * intros f j' c Hf Hj'. rewrite lookup_set.
+        destruct (path_eqb (firstn j g) (firstn j' f)); [discriminate | apply Ha; assumption].
+      * intros f Hf. rewrite lookup_set_other; [apply Hd; exact Hf|].
+        intro E'. apply (Hnn f g j Hf Hg Hj). symmetry. exact E'.
+      * intros f Hf. rewrite lookup_set_other; [apply Hb; exact Hf|].
+        intro E'. pose proof (not_under_firstn _ _ j (Hout g Hg)) as Hnu.
+        rewrite E' in Hnu. rewrite under_dir_root in Hnu. discriminate.
+  - destruct He as (Hdin & ->). cbn [exec apply].
+    destruct (Hb d Hdin) as (c & Hc). rewrite Hc.
+    destruct (lookup cur d) as [[|x]|] eqn:E.
+    + exfalso. apply (Hd d Hdin). exact E.
+    + apply IH; try assumption.
+      * intros f j' c' Hf Hj'. rewrite lookup_set_other; [apply Ha; assumption|].
+        apply (Hnn d f j' Hdin Hf Hj').
+      * intros f Hf. rewrite lookup_set. destruct (path_eqb d f); [discriminate | apply Hd; exact Hf].
+      * intros f Hf. rewrite lookup_set_other; [apply Hb; exact Hf|].
+        intro E'. pose proof (Hout d Hdin) as Hnu. rewrite E' in Hnu.
+        rewrite under_dir_root in Hnu. discriminate.
+    + apply IH; try assumption.
+      * intros f j' c' Hf Hj'. rewrite lookup_set_other; [apply Ha; assumption|].
+        apply (Hnn d f j' Hdin Hf Hj').
+      * intros f Hf. rewrite lookup_set. destruct (path_eqb d f); [discriminate | apply Hd; exact Hf].
+      * intros f Hf. rewrite lookup_set_other; [apply Hb; exact Hf|].
+        intro E'. pose proof (Hout d Hdin) as Hnu. rewrite E' in Hnu.
+        rewrite under_dir_root in Hnu. discriminate.
+  - contradiction.
+Qed.
+
+(* edits of the data tree that cannot make a restore fail: anything except writing a FILE
+   where an ancestor directory of a backed-up file must be, or making a DIRECTORY where a
+   backed-up file must be (and, as everywhere, nothing below the backup's own directory) *)
+Definition harmless (files : list path) (u : uop) : Prop :=
+  match u with
+  | UWrite p _ => forall g j, In g files -> j < length g -> p <> firstn j g
+  | UDelete _ => True
+  | UMkdir p => ~ In p files
+  end.
+
+Lemma uops_restorable files us : forall f,
+  Forall (harmless files) us -> anc_ok f files -> notdir_ok f files ->
+  anc_ok (fold_left (fun f u => uapply u f) us f) files /\
+  notdir_ok (fold_left (fun f u => uapply u f) us f) files.
+Proof.
+  induction us as [|u us IH]; intros f Hh Ha Hd; [split; assumption|].
+  inversion Hh as [|? ? Hu Hus]; subst. simpl. apply IH; [exact Hus | |].
+  - intros g j c Hg Hj. destruct u as [p c0|p|p]; cbn [uapply harmless] in *.
+    + rewrite lookup_set_other; [apply Ha; assumption | apply Hu; assumption].
+    + rewrite lookup_remove. destruct (path_eqb p (firstn j g)); [discriminate | apply Ha; assumption].
+    + rewrite lookup_set. destruct (path_eqb p (firstn j g)); [discriminate | apply Ha; assumption].
+  - intros g Hg. destruct u as [p c0|p|p]; cbn [uapply harmless] in *.
+    + rewrite lookup_set. destruct (path_eqb p g); [discriminate | apply Hd; exact Hg].
+    + rewrite lookup_remove. destruct (path_eqb p g); [discriminate | apply Hd; exact Hg].
+    + rewrite lookup_set_other; [apply Hd; exact Hg | intro E; subst; contradiction].
+Qed.
+
+Lemma restore_effects_rok b files :
+  Forall valid_file files ->
+  Forall (rok files b) (restore_effects b [] (keys_of files [])).
+Proof.
+  intros Hv. apply Forall_forall. intros e He.
+  unfold restore_effects in He. apply in_flat_map in He as (k & Hk & He).
+  apply keys_of_in in Hk as [[] | (f & Hf & ->)].
+  pose proof (proj1 (Forall_forall _ _) Hv f Hf) as Hvf.
+  unfold restore_one in He. rewrite key_path_file_key in He by exact Hvf.
+  apply in_app_or in He as [He | [<- | []]].
+  - apply in_mkdirs in He as (j & ->). simpl.
+    rewrite removelast_firstn_len, firstn_firstn.
+    exists f, (Nat.min j (Init.Nat.pred (length f))). split; [exact Hf|]. split; [|reflexivity].
+    destruct Hvf as [Hne _]. destruct f; [congruence|]. simpl. lia.
+  - simpl. split; [exact Hf | reflexivity].
+Qed.
+
+(* restore_identical with its premise established: after a completed create_backup of a
+   non-empty selection and harmless edits outside the backup, the full restore DOES complete,
+   and every file is back to its original bytes *)
+Lemma restore_total_lemma fx b files ts f0 m f1 m1 us :
+  (forall p, under (backup_dir b) p = true -> lookup f0 p = None) ->
+  Forall (fun f => under (backup_dir b) f = false) files ->
+  Forall valid_file files -> json_ok ts -> files <> [] ->
+  anc_ok f0 files ->
+  mgr_get m b = None ->
+  create_backup fx m f0 files b ts = (f1, m1, Ok true) ->
+  Forall (fun u => under (backup_dir b) (utarget u) = false) us ->
+  Forall (harmless files) us ->
+  exists f3,
+    restore_backup m1 (fold_left (fun f u => uapply u f) us f1) b [] = (f3, Ok tt) /\
+    forall f, In f files -> exists c, read f0 f = Some c /\ read f3 f = Some c.
+Proof.
+  intros Hfresh Hout Hval Hts Hne Hanc Hm Hc Hus Hh.
+  destruct (create_backup_complete b files ts f0 Hfresh Hout Hval fx m f1 m1 Hm Hc)
+    as (Hm1 & _ & Hsame & Hfiles).
+  pose proof (proj1 (Forall_forall _ _) Hout) as Hout'. cbv beta in Hout'.
+  assert (Hfile0 : forall f, In f files -> exists c, lookup f0 f = Some (File c)).
+  { intros f Hf. destruct (Hfiles f Hf) as (c & H1 & _). exists c. apply read_lookup. exact H1. }
+  assert (Hnn : no_nest files).
+  { intros f g j Hf Hg Hj E. destruct (Hfile0 f Hf) as (c & Hc0).
+    apply (Hanc g j c Hg Hj). rewrite <- E. exact Hc0. }
+  assert (Ha1 : anc_ok f1 files).
+  { intros f j c Hf Hj. rewrite Hsame; [apply Hanc; assumption|].
+    apply not_under_firstn. apply Hout'. exact Hf. }
+  assert (Hd1 : notdir_ok f1 files).
+  { intros f Hf. rewrite Hsame by (apply Hout'; exact Hf).
+    destruct (Hfile0 f Hf) as (c & ->). discriminate. }
+  destruct (uops_restorable files us f1 Hh Ha1 Hd1) as [Ha2 Hd2].
+  set (f2 := fold_left (fun f u => uapply u f) us f1) in *.
+  assert (Hb2 : forall f, In f files -> exists c, lookup f2 (backup_root b ++ f) = Some (File c)).
+  { intros f Hf. destruct (Hfiles f Hf) as (c & _ & H2). exists c.
+    unfold f2. rewrite (uops_frozen b us f1 _ Hus (under_dir_root b f)). apply read_lookup. exact H2. }
+  destruct (exec_restorable files b _ f2 (restore_effects_rok b files Hval) Hnn Hout' Ha2 Hd2 Hb2)
+    as (f3 & Hex).
+  assert (Hr : restore_backup m1 f2 b [] = (f3, Ok tt)).
+  { unfold restore_backup. rewrite Hm1.
+    destruct (keys_of files []) as [|k0 ks0] eqn:Ek; [|exact Hex].
+    exfalso. destruct files as [|f r]; [congruence|].
+    pose proof (keys_of_complete (f :: r) [] f (or_introl eq_refl)) as Hin. rewrite Ek in Hin. exact Hin. }
+  exists f3. split; [exact Hr|].
+  eapply restore_identical_lemma; eassumption.
+Qed.
+
+(* ------------------------------------------------------------------ *)
+(* The third outcome: between the first mkdir and the completed record  *)
+(* the constructor RAISES (and so no backup of that directory is        *)
+(* available until the half-made directory is removed)                  *)
+(* ------------------------------------------------------------------ *)
+Lemma lookup_in_fst f q nd : lookup f q = Some nd -> In q (map fst f).
+Proof.
+  induction f as [|[r n] f IH]; simpl; [discriminate|].
+  destruct (path_eqb r q) eqn:E; [apply path_eqb_spec in E; subst; left; reflexivity|].
+  intro H. right. apply IH. exact H.
+Qed.
+
+Lemma nodup_strs_in x l : In x l -> In x (nodup_strs l).
+Proof.
+  induction l as [|y l IH]; intro H; [contradiction|]. simpl.
+  destruct (mem_str y l) eqn:E.
+  - destruct H as [->|H]; [apply IH; apply mem_str_spec; exact E | apply IH; exact H].
+  - destruct H as [->|H]; [left; reflexivity | right; apply IH; exact H].
+Qed.
+
+Lemma in_listdir f p n nd : lookup f (p ++ [n]) = Some nd -> In n (listdir f p).
+Proof.
+  intro H. unfold listdir. apply nodup_strs_in. apply in_flat_map.
+  exists (p ++ [n]). split; [eapply lookup_in_fst; exact H|].
+  rewrite strip_app. left. reflexivity.
+Qed.
+
+Lemma loop_exn f n : forall bs,
+  In n bs -> (forall rec, check_one f n <> Ok rec) -> exists e, get_backups_loop f bs = Exn e.
+Proof.
+  induction bs as [|x bs IH]; intros Hin Hno; [contradiction|]. simpl.
+  destruct (check_one f x) as [ks|e] eqn:Ec; [|eexists; reflexivity]. simpl.
+  destruct Hin as [->|Hin]; [exfalso; eapply Hno; exact Ec|].
+  destruct (IH Hin Hno) as (e & ->). eexists. reflexivity.
+Qed.
+
+Lemma crash_lock_cases b files ts f0 :
+  (forall p, under (backup_dir b) p = true -> lookup f0 p = None) ->
+  Forall (fun f => under (backup_dir b) f = false) files ->
+  Forall valid_file files ->
+  forall i k,
+    let fc := crash f0 (create_effects b files ts) i k in
+    let d := dump (keys_of files []) ts in
+    lookup fc (backup_lock b) = None \/
+    (exists n, n < length d /\ lookup fc (backup_lock b) = Some (File (firstn n d))) \/
+    lookup fc (backup_lock b) = Some (File d).
+Proof.
+  intros Hfresh Hout Hval i k fc d. subst fc.
+  change (create_effects b files ts)
+    with (copies_part b files ++ [Write (backup_lock b) (dump (keys_of files []) ts)]).
+  rewrite crash_app.
+  pose proof (Hfresh _ (under_dir_lock b)) as Hl0.
+  pose proof (copies_ok b files Hout Hval) as Hok.
+  destruct (i <? length (copies_part b files)).
+  { left. rewrite (crash_frozen (Rc b) (gc b)); [exact Hl0 | exact Hok | apply Rc_lock]. }
+  destruct (exec f0 (copies_part b files)) as [f1 r] eqn:Hex.
+  assert (Hl1 : lookup f1 (backup_lock b) = None).
+  { rewrite (exec_frozen (Rc b) (gc b) _ _ _ _ _ Hok Hex (Rc_lock b)). exact Hl0. }
+  destruct r as [[]|x]; [|left; exact Hl1].
+  destruct (i - length (copies_part b files)) as [|j]; cbn [crash].
+  - destruct k as [n|]; [|left; exact Hl1].
+    cbn [partial]. rewrite Hl1. fold d.
+    destruct (n <? length d) eqn:En; [|left; exact Hl1].
+    right. left. exists n. split; [apply Nat.ltb_lt; exact En | apply lookup_set_same].
+  - cbn [apply]. rewrite Hl1. cbn [crash]. right. right. apply lookup_set_same.
+Qed.
+
+Lemma crash_midway_raises b n files ts f0 :
+  key_path b = [n] -> key_path n = [n] ->
+  (forall p, under (backup_dir b) p = true -> lookup f0 p = None) ->
+  Forall (fun f => under (backup_dir b) f = false) files ->
+  Forall valid_file files -> json_ok ts ->
+  forall i k,
+    let fc := crash f0 (create_effects b files ts) i k in
+    1 <= i ->
+    lookup fc (backup_lock b) <> Some (File (dump (keys_of files []) ts)) ->
+    exists e, get_backups fc = Exn e.
+Proof.
+  intros Hb Hn Hfresh Hout Hval Hts i k fc Hi Hinc.
+  unfold get_backups. destruct (negb (isdir fc backups_path)); [eexists; reflexivity|].
+  assert (Hdir : backup_dir n = backup_dir b) by (apply backup_dir_alias; congruence).
+  apply (loop_exn fc n).
+  - (* the half-made directory is an entry of backups_path *)
+    assert (Hex : exists_ fc (backup_dir b) = true).
+    { subst fc. destruct i as [|i]; [lia|].
+      unfold create_effects. cbn [app].
+      rewrite (crash_cons_S _ _ f0 (set (backup_dir b) Dir f0)).
+      + apply crash_exists. unfold exists_. rewrite lookup_set_same. reflexivity.
+      + cbn [apply]. rewrite (Hfresh _ (under_dir_self b)). reflexivity. }
+    unfold exists_ in Hex. destruct (lookup fc (backup_dir b)) as [nd|] eqn:E; [|discriminate].
+    unfold backup_dir, name_path in E. rewrite Hb in E. eapply in_listdir. exact E.
+  - intros rec Hc. apply check_one_ok_inv in Hc as (c & Hc & Hload).
+    unfold backup_lock in Hc. rewrite Hdir in Hc. fold (backup_lock b) in Hc.
+    destruct (crash_lock_cases b files ts f0 Hfresh Hout Hval i k) as [H | [(m & Hm & H) | H]];
+      fold fc in H; rewrite H in Hc.
+    + discriminate.
+    + inversion Hc; subst c.
+      rewrite load_prefix in Hload; [discriminate | | exact Hts | exact Hm].
+      apply (keys_json_ok files Hval).
+    + apply Hinc. exact H.
+Qed.
+
+(* the premises of restore_total_lemma on the concrete tree: one file overwritten, one deleted *)
+Definition ex_us : list uop := [UWrite [ex_sub; ex_a] [9]%N; UDelete [ex_c]].
+Lemma ex_restore_total :
+  anc_ok ex_f0 ex_files /\ Forall (harmless ex_files) ex_us /\
+  Forall (fun u => under (backup_dir ex_b) (utarget u) = false) ex_us /\ ex_files <> [] /\
+  (let '(f1, m1, _) := create_backup true [] ex_f0 ex_files ex_b ex_ts in
+   let f3 := fst (restore_backup m1 (fold_left (fun f u => uapply u f) ex_us f1) ex_b []) in
+   snd (restore_backup m1 (fold_left (fun f u => uapply u f) ex_us f1) ex_b []) = Ok tt /\
+   read f3 [ex_sub; ex_a] = Some [1;2;3]%N /\ read f3 [ex_c] = Some [7]%N).
+Proof.
+  split; [|split; [|split; [|split]]].
+  - intros f j c Hf Hj. destruct Hf as [<-|[<-|[]]].
+    + destruct j as [|[|j]]; [vm_compute; discriminate | vm_compute; discriminate | simpl in Hj; lia].
+    + destruct j as [|j]; [vm_compute; discriminate | simpl in Hj; lia].
+  - constructor; [|constructor; [exact I | constructor]].
+    intros g j Hg Hj. destruct Hg as [<-|[<-|[]]].
+    + destruct j as [|[|j]]; [discriminate | discriminate | simpl in Hj; lia].
+    + destruct j as [|j]; [discriminate | simpl in Hj; lia].
+  - repeat constructor.
+  - discriminate.
+  - vm_compute. repeat split; reflexivity.
 Qed.
